@@ -248,7 +248,6 @@ class FontCtx:
         # static metric values (HarfBuzz at the default location)
         self.hbo.set_location(None)
         self.mvar_tags = []
-        self.excl_mvar = []
         self.mvar_unsorted = False
         self.mvar_os2 = set()
         if "MVAR" in self.tables and "MVAR" in self.stores:
@@ -552,8 +551,8 @@ def gen_locations(ctx, rnd, triples, pinned, n):
 
 def jobs(tier, seed):
     thorough = tier == "thorough"
-    nsets = 210 if thorough else 35
-    chunk = 7
+    nsets = 210 if thorough else 28
+    chunk = 7 if thorough else 14
     J = []
     fids = []
     for e in corpus.fonts(lambda e: e["variable"]):
@@ -782,16 +781,21 @@ def _limits_arg(lim):
 
 
 def _nudged(ctx, norm, k=3):
-    """normalised coordinate vectors around `norm` (each axis +-k/16384, all axes together)"""
+    """normalised coordinate vectors around `norm` (all axes together, each of the first axes alone,
+    +-k/16384), clamped to the coordinates a user value can reach: an axis whose default is its
+    minimum has no negative side"""
+    lo = [-1.0 if mn < df else 0.0 for _, mn, df, mx in ctx.axes]
+    hi = [1.0 if mx > df else 0.0 for _, mn, df, mx in ctx.axes]
+    d = k * varbudget.F2DOT14
     out = []
     for sgn in (-1, 1):
-        out.append([min(1.0, max(-1.0, c + sgn * k * varbudget.F2DOT14)) for c in norm])
+        out.append([min(hi[i], max(lo[i], c + sgn * d)) for i, c in enumerate(norm)])
     for i in range(min(len(norm), 6)):
         for sgn in (-1, 1):
             v = list(norm)
-            v[i] = min(1.0, max(-1.0, v[i] + sgn * k * varbudget.F2DOT14))
+            v[i] = min(hi[i], max(lo[i], v[i] + sgn * d))
             out.append(v)
-    return out
+    return [v for v in out if v != list(norm)]
 
 
 # ---------------------------------------------------------------------------
@@ -1187,7 +1191,9 @@ MUST_HAVE = [
     "font:glyf", "font:CFF2", "axis:pin", "axis:range", "axis:range3", "axis:drop", "axis:leave", "limits:full-pin",
     "limits:partial", "limits:default-moved", "limits:proper-subrange", "loc:new-default", "loc:other", "has:avar",
     "has:HVAR", "has:MVAR", "has:variable-GDEF/GPOS", "opt:optimize=True", "opt:optimize=False", "outline:compared",
-    "advance:compared", "metric:compared", "shape:compared",
+    "advance:compared", "metric:compared", "shape:compared", "shape:gpos-adjusted", "shape:gsub-changed",
+    "has:FeatureVariations", "has:avar2", "has:VVAR", "opt:static", "opt:inplace=True", "variant:noavar", "variant:nohvar",
+    "variant:varmarks", "name-added",
 ]  # fmt: skip
 
 
